@@ -73,6 +73,19 @@ REFUSALS = {
     'add_isohybrid:mac-with-one-efi-image': ('eltorito2', 'add_isohybrid', [], dict(mac=True)),
     'add_symlink:rr-name-with-slash': ('rr', 'add_symlink', [], dict(symlink_path='/SYM.;1', rr_symlink_name='a/b', rr_path='foo')),
     'add_symlink:udf-target-component-too-long': ('udf', 'add_symlink', [], dict(udf_symlink_path='/sym', udf_target='d/' + 'x' * 255)),
+    # more multi-namespace shapes: the LATER namespace refuses (all of them left the earlier part behind before the K12 repairs)
+    'add_fp:udf-name-too-long': ('udf', 'add_fp', ['FILE', 4], dict(iso_path='/BAR.;1', udf_path='/' + 'x' * 300)),
+    'add_fp:udf-only-name-too-long': ('udf', 'add_fp', ['FILE', 4], dict(udf_path='/' + 'x' * 300)),
+    'add_fp:udf-only-duplicate': ('udf', 'add_fp', ['FILE', 4], dict(udf_path='/foo')),
+    'add_fp:udf-parent-is-a-file': ('udf', 'add_fp', ['FILE', 4], dict(iso_path='/BAR.;1', udf_path='/foo/bar')),
+    'add_fp:udf-only-parent-is-a-file': ('udf', 'add_fp', ['FILE', 4], dict(udf_path='/foo/bar')),
+    'add_fp:joliet-parent-is-a-file': ('joliet', 'add_fp', ['FILE', 4], dict(iso_path='/BAR.;1', joliet_path='/foo/bar')),
+    'add_directory:udf-name-too-long': ('udf', 'add_directory', [], dict(iso_path='/DIR2', udf_path='/' + 'x' * 300)),
+    'add_directory:udf-missing-parent': ('udf', 'add_directory', [], dict(iso_path='/DIR2', udf_path='/nodir/dir2')),
+    'add_symlink:udf-duplicate': ('all', 'add_symlink', [], dict(symlink_path='/SYM.;1', rr_symlink_name='sym', rr_path='foo', udf_symlink_path='/foo', udf_target='foo')),
+    'add_symlink:joliet-duplicate': ('all', 'add_symlink', [], dict(symlink_path='/SYM.;1', rr_symlink_name='sym', rr_path='foo', joliet_path='/foo')),
+    'rm_directory:udf-missing': ('udf', 'rm_directory', [], dict(iso_path='/DIR1', udf_path='/nodir')),
+    'rm_directory:joliet-is-a-file': ('joliet', 'rm_directory', [], dict(iso_path='/DIR1', joliet_path='/foo')),
     # a Joliet / UDF path that names the root directory itself (K60: used to add an entry without a name)
     'add_fp:joliet-path-names-the-root': ('joliet', 'add_fp', ['FILE', 4], dict(joliet_path='/.')),
     'add_directory:udf-path-names-the-root': ('udf', 'add_directory', [], dict(udf_path='/x/..')),
@@ -97,28 +110,8 @@ REFUSALS = {
 # Recorded findings (K12): multi-step edits that are refused after an earlier step was applied.  They are properties of how the
 # public methods are structured upstream (apply namespace by namespace, validate inside each step), not a few-line repair;
 # each entry is one call shape, identified by its scenario, so any OTHER refusal that changes the image is still reported.
-KNOWN_NON_ATOMIC = {
-    'add_fp:joliet-on-plain': 'add_fp(iso_path=..., joliet_path=...) on an image without Joliet: ISO9660 entry already added when the Joliet part is refused (InternalError); the next write fails',
-    'add_fp:joliet-name-too-long': 'add_fp with an over-long Joliet name: ISO9660 entry already added when the Joliet name is refused; the next write fails',
-    'add_fp:joliet-missing-parent': 'add_fp with a Joliet path whose parent does not exist: ISO9660 entry already added; the next write fails',
-    'add_fp:joliet-duplicate': 'add_fp with an existing Joliet name: ISO9660 entry already added; the next write fails',
-    'add_fp:udf-duplicate': 'add_fp with an existing UDF name: ISO9660 entry already added and stays in the image',
-    'add_fp:udf-missing-parent': 'add_fp with a UDF path whose parent does not exist: ISO9660 entry already added and stays in the image',
-    'add_directory:joliet-duplicate': 'add_directory with an existing Joliet name: ISO9660 directory already created; the next write fails',
-    'add_directory:joliet-missing-parent': 'add_directory with a Joliet path whose parent does not exist: ISO9660 directory already created; the next write fails',
-    'add_directory:udf-duplicate': 'add_directory with an existing UDF name: ISO9660 directory already created and stays',
-    'add_directory:rr-duplicate': 'add_directory of an existing Rock Ridge directory: the parent link counts were already incremented when the duplicate is refused',
-    'add_eltorito:bad-media': 'add_eltorito with an unknown media name: boot record and catalog already attached; the next write fails',
-    'add_eltorito:bad-media-with-table': 'add_eltorito(boot_info_table=True) with an unknown media name: boot info table, boot record and catalog already attached',
-    'add_eltorito:bad-platform': 'add_eltorito with an invalid platform id: boot record and catalog already attached; the next write fails',
-    'add_eltorito:bootcat-missing-parent': 'add_eltorito with a boot catalog path in a missing directory: boot record and catalog already attached; the next write fails',
-    'add_eltorito:bootcat-illegal-name': 'add_eltorito with an illegal boot catalog name: boot record and catalog already attached; the next write fails',
-    'add_eltorito:bootcat-duplicate': 'add_eltorito with a boot catalog name that exists: boot record and catalog already attached; the next write fails',
-    'add_eltorito:rr-bootcat-name-with-slash': 'add_eltorito with a Rock Ridge catalog name holding a slash: boot record and catalog already attached; the next write fails',
-    'add_eltorito:joliet-bootcat-missing-parent': 'add_eltorito with a Joliet catalog path in a missing directory: ISO9660 catalog file, boot record and catalog stay',
-    'add_eltorito:udf-bootcat-duplicate': 'add_eltorito with a UDF catalog name that exists: ISO9660 catalog file, boot record and catalog stay',
-    'rm_directory:joliet-missing': 'rm_directory(iso_path=..., joliet_path=<missing>): the ISO9660 directory is already removed when the Joliet part is refused',
-}
+# call shapes that raise after part of the edit was applied (K12): all repaired, none left
+KNOWN_NON_ATOMIC = {}
 
 
 @contract
@@ -295,17 +288,6 @@ class RandomRefused(Base):
             ok6, w2 = S.try_call(c, lambda: S.written(c, a.ref))
             cl['later-edit-and-write-agree'] = (ok5 and ok6) and Eq(g2, w2)
         return cl
-
-    # the one known non-atomic call shape reachable here (K12, listed per call shape above): add_directory of an existing directory
-    # on a Rock Ridge image has already counted the new link in the parent when the duplicate is refused
-    @property
-    def known(self):
-        from contracts import fidelity as F
-        kw, _ = F.get_script(self.history)
-        if 'rock_ridge' in kw and random_refusal(self.history)[0] == 'duplicate-directory-name':
-            ent = [('K12:add_directory:rr-duplicate', lambda a: True, KNOWN_NON_ATOMIC['add_directory:rr-duplicate'])]
-            return {'/post-raise:next-write-is-unaffected': ent, '/post-raise:later-edit-and-write-agree': ent}
-        return {}
 
     def observe(self, c, a, out):
         return {'kind': out.kind, 'exc': out.exc, 'what': getattr(a, 'what', None)}
